@@ -18,7 +18,7 @@ ASSUMPTIONS = ['vmon/ref/blocking.py payload-stream model', 'io.BytesIO (never r
 MAXN = 2024
 QUICK_RESIDUES = [0, 1, 2, 3, 504, 505, 506, 507, 508, 1008, 1009, 1010, 1011]
 
-_DATA = coded(210 * 1012)
+_DATA = coded(2300 * 1012)
 
 
 def files():
@@ -30,6 +30,7 @@ def files():
         'F2x': ref.block(_DATA[:2 * 1012]),
         'F70': ref.block(_DATA[:70 * 1012 - 300]),          # larger than 64 KiB
         'F200': ref.block(_DATA[:200 * 1012 - 11]),
+        'F2300': ref.block(_DATA[:2300 * 1012 - 77]),       # larger than 2 MiB
     }
 
 
@@ -81,15 +82,17 @@ def cases(ctx):
     rng = ctx.rng('seq')
     for j in range((400 if ctx.tier == 'quick' else 6000) // ctx.nshards + 1):
         name = rng.choice(list(_FILES))
-        big = name in ('F70', 'F200')
+        big = name in ('F70', 'F200', 'F2300')
         pool = [0, 1, 2, 3, 4, 7, 100, 1011, 1012, 1013, 1014, 2024, 2025, 3000, rng.randint(1, 1300)]
         if big:
             pool += [4096, 8192, 16384, 65535, 65536, 65537, 66000, 70000, 131072, rng.randint(2025, 90000)]
+            if name == 'F2300':
+                pool += [1 << 20, (1 << 20) + 1, 1 << 21, (1 << 21) + 5, 1038336, 2097152 - 200]
         sizes = [rng.choice(pool) for _ in range(rng.randint(1, 14))]
         yield {'kind': 'seq', 'file': name, 'sizes': sizes}
     # read() with no size on files larger than 64 KiB, after a few different pre-reads
-    for name in ('F70', 'F200'):
-        for pre in ([], [1], [1012], [4, 2021], [65536], [66000, 7], [0, 5], [5, 0]):
+    for name in ('F70', 'F200', 'F2300'):
+        for pre in ([], [1], [1012], [4, 2021], [65536], [66000, 7], [0, 5], [5, 0], [1 << 20, 3], [2097152]):
             if ctx.mine(i):
                 yield {'kind': 'readall', 'file': name, 'pre': pre}
             i += 1
@@ -114,6 +117,13 @@ def cases(ctx):
     for j in range((100 if ctx.tier == 'quick' else 1500) // ctx.nshards + 1):
         yield {'kind': 'records', 'lens': [rng.choice([1, 4, 1004, 1008, 1012, 2020, rng.randint(1, 1500)])
                                            for _ in range(rng.randint(1, 9))]}
+    # one file of thousands of records (more than 1 MiB and more than 2 MiB of blocks)
+    if ctx.mine(i):
+        yield {'kind': 'records', 'lens': [997 + (k * 37) % 600 for k in range(900 if ctx.tier == 'quick' else 2500)], 'big': True}
+    i += 1
+    if ctx.mine(i):
+        yield {'kind': 'records', 'lens': [5800 + (k % 200) for k in range(420)], 'big': True}
+    i += 1
 
 
 def rd(ctx, u, *args):
@@ -280,10 +290,13 @@ def judge(ctx, case):
         pos = 0
         for ln in case['lens']:
             recs.append(_DATA[pos:pos + ln])
-            pos = (pos + ln) % 3000
+            pos = (pos + ln) % 300000
         stream = ref.vbs(recs)
-        k1, got_plain = ctx.call(lambda: list(m.VbsReader(io.BytesIO(stream))), budget=200000)
-        k2, got_blocked = ctx.call(lambda: list(m.VbsReader(io.BytesIO(ref.block(stream)), blocked=True)), budget=200000)
+        budget = 200000 + 60 * len(recs) + len(stream) // 10
+        k1, got_plain = ctx.call(lambda: list(m.VbsReader(io.BytesIO(stream))), budget=budget)
+        k2, got_blocked = ctx.call(lambda: list(m.VbsReader(io.BytesIO(ref.block(stream)), blocked=True)), budget=budget)
+        if case.get('big'):
+            ctx.count('blocked files over 1 MiB read record by record')
         ctx.count('VbsReader(blocked) runs')
         if k2 != 'ok':
             unexpected(ctx, case, k2, got_blocked, 'VbsReader(blocked)')
@@ -352,6 +365,8 @@ def canaries(ctx):
 def require(m):
     reasons = []
     c = m['counters']
+    if not c.get('blocked files over 1 MiB read record by record'):
+        reasons.append('no blocked file over 1 MiB was read record by record')
     if not c.get('reads of size 0 judged'):
         reasons.append('no read of size 0 judged')
     if not c.get('reads larger than two blocks judged'):
